@@ -599,7 +599,9 @@ pub fn gen_main(args: &[String]) {
                 b.fails += 1;
                 eprintln!("lenient load: {}", r);
             }
-            let c = b.kid(0, "AR-PACKAGES");
+            // loading the first file into a model replaces its root element
+            let root = b.ex.hidx[&b.ex.models[0].root_element()];
+            let c = b.kid(root, "AR-PACKAGES");
             op_fail += b.fails as u64;
             b.finish(k, "lenient", &setid, c, &mut text);
             k += 1;
